@@ -471,4 +471,36 @@ def c05(ctx):
                       'with snapshots of the user keyring. distinct = distinct records.')
 
 
-CHECKS = {'C05': c05, 'C11': c11, 'C03': c03, 'C10': c10, 'C12': c12, 'C13': c13, 'C01': c01, 'C02': c02, 'C04': c04, 'C07': c07, 'C08': c08, 'C09': c09}
+def c14(ctx):
+    from . import drv_sign as d, gpgenv
+    thorough = ctx.tier == 'thorough'
+    rng = random.Random(ctx.seed)
+    ctx.mc('Signing', 'MC_Signing.cfg')
+    ctx.mc('Signing', 'MC_Signing_F11.cfg', expect_violation='SignedIffWanted', coverage=False)
+    if not gpgenv.have_gpg():
+        ctx.skipped.append('gpg not available: real signing runs skipped')
+        return ctx.finish(rule='model only')
+    homes = d.build_homes()
+    try:
+        cases = d.all_cases(rng, thorough)
+        hp = {'H': homes['H'].path, 'Hpub': homes['Hpub'].path, 'a': homes['a'], 'b': homes['b']}
+        out = core.pool_map(d.one_case, [(c, hp, ctx.seed) for c in cases], chunksize=1)
+    finally:
+        homes['H'].close()
+        homes['Hpub'].close()
+    recs = [r for o in out for r in o]
+    metas = [r.pop('meta') for r in recs]
+    ctx.judge('TraceSigning', 'TraceSigning.cfg', recs, metas, {'module': 'TraceSigning'},
+              sig=lambda r: hash(json_key({k: v for k, v in r.items() if k != 'id'})))
+    ctx.extra['combinations'] = len(cases)
+    ctx.sample({'case': metas[5], 'end': recs[5]['end'], 'top': recs[5]['top']})
+    ctx.assumptions += ['real gpg 2.2 with ed25519 keys generated offline; "unusable key" = public-key-only home or unknown key id',
+                        'the state of the file on disk after a signing failure is not judged']
+    return ctx.finish(rule='Signing.tla (sign decision for top-level / renamed top-level / sub-Manifests, signer failure) by TLC; '
+                      'real loader + real gpg for the full product sign option x originally signed x key id (default / explicit / '
+                      'missing) x usable key x top-level renamed by decompression x sub-Manifest format x hostile names; written '
+                      'files classified with the C04 line classifier and judged with FramingRef, re-verified in a separate '
+                      'verifier home, authenticated cleartext compared with the in-memory entries.')
+
+
+CHECKS = {'C14': c14, 'C05': c05, 'C11': c11, 'C03': c03, 'C10': c10, 'C12': c12, 'C13': c13, 'C01': c01, 'C02': c02, 'C04': c04, 'C07': c07, 'C08': c08, 'C09': c09}
